@@ -72,6 +72,10 @@ EXPLANATION += (
     ' Round 10: the sentinel / row-position rules of C09 are shared.'
 )
 
+EXPLANATION += (
+    ' Round 11: the axis typing of the election (leaf axis vs type axis) is shared.'
+)
+
 RULE_TEXT = (
     "one obligation per (file kind, reader, required dataset), per "
     "provenance relation; non-trivial when the reader requires at least "
